@@ -410,3 +410,67 @@ Proof.
     + exact (posrng_in_text text ts _ TK Q2).
     + exact (posrng_in_text text ts _ TK Q2).
 Qed.
+
+(* ------------------------------------------------------------------------------------------ *)
+(* the payee range: it starts where a text token of the stream starts and extends over that token's
+   (trimmed) value on the same line *)
+Definition payee_rng_q (orig : list token) (r : rng) : Prop :=
+  r = rng0 \/ exists t, In t orig /\ r = text_range (tk_pos t) (tk_val t).
+
+Lemma parse_transaction_prng orig fuel ps tx ps' : wf ps -> suffix (toks ps) orig ->
+  parse_transaction fuel ps = Some (Some tx, ps') -> payee_rng_q orig (tx_prng tx).
+Proof.
+  intros W So H. unfold parse_transaction in H.
+  pose proof (parse_date_le ps W) as [W1 _]. pose proof (parse_date_sfx ps) as S1.
+  destruct (parse_date ps) as [od ps1] eqn:Ed. cbn [snd] in *. destruct od as [d|]; [|discriminate].
+  assert (So1 : suffix (toks ps1) orig) by (eapply suffix_trans; [exact S1|exact So]).
+  revert H. break_hdr; intro H;
+    match type of H with
+    | context [parse_postings fuel ?PS []] =>
+        destruct (parse_postings fuel PS []) as [[posts psz]|] eqn:Epp; [|discriminate];
+        inversion H; subst; clear H; cbn [tx_prng];
+        first [ left; reflexivity
+              | right; eexists; split; [|reflexivity]; eapply (cur_in_orig orig ps1 _ W1 So1); [sub_facts; le_solve|sfacts; sfx_solve] ]
+    end.
+Qed.
+
+Theorem parse_payee_ranges text j errs : parse text = Some (j, errs) ->
+  forall tx, In tx (j_txs j) ->
+    tx_prng tx = rng0 \/
+    exists t, tok_ok text t /\ tx_prng tx = text_range (tk_pos t) (tk_val t).
+Proof.
+  unfold parse. destruct (lex text) as [ts|] eqn:El; [|discriminate].
+  destruct (parse_journal (length ts + 2) (mkPS ts [] 0%Z) (mkJournal [] [] [] [])) as [[j0 ps]|] eqn:Ej; [|discriminate].
+  intro H. inversion H; subst j0 errs. clear H.
+  pose proof (lex_positions text ts El) as TK. rewrite Forall_forall in TK.
+  assert (W : wf (mkPS ts [] 0%Z)) by (apply wf_ends; cbn [toks]; exact (lex_all_ends_eof _ _ _ El)).
+  assert (G : forall fuel ps j j' ps', wf ps -> suffix (toks ps) ts -> parse_journal fuel ps j = Some (j', ps') ->
+              Forall (fun t => payee_rng_q ts (tx_prng t)) (j_txs j) -> Forall (fun t => payee_rng_q ts (tx_prng t)) (j_txs j')).
+  { induction fuel as [|fuel IH]; intros ps1 j1 j' ps' W1 So H Fj; [discriminate|].
+    cbn [parse_journal] in H.
+    destruct (is_ty (ctype ps1) TEOF). { inversion H; subst. exact Fj. }
+    assert (STEP : forall X jx, le X ps1 -> sfx X ps1 -> j_txs jx = j_txs j1 -> parse_journal fuel X jx = Some (j', ps') ->
+                   Forall (fun t => payee_rng_q ts (tx_prng t)) (j_txs j')).
+    { intros X jx LE SX EJ HX. destruct (LE W1) as [WX _].
+      apply (IH X jx j' ps' WX); [eapply suffix_trans; [exact SX|exact So]|exact HX|rewrite EJ; exact Fj]. }
+    destruct (is_ty (ctype ps1) TNewline). { eapply (STEP (adv ps1) j1); [apply adv_le|apply adv_sfx|reflexivity|exact H]. }
+    destruct (is_ty (ctype ps1) TComment).
+    { pose proof (parse_comment_le ps1) as LC. pose proof (parse_comment_sfx ps1) as SC.
+      destruct (parse_comment ps1) as [c ps2]. cbn [snd] in *. eapply (STEP ps2); [exact LC|exact SC| |exact H]. reflexivity. }
+    destruct (is_ty (ctype ps1) TDate).
+    { destruct (parse_transaction fuel ps1) as [[otx ps2]|] eqn:Et; [|discriminate].
+      destruct (parse_transaction_R fuel ps1 otx ps2 Et W1) as (W2 & S2 & _).
+      assert (So2 : suffix (toks ps2) ts) by (eapply suffix_trans; [exact S2|exact So]).
+      destruct otx as [tx|].
+      - apply (IH ps2 _ j' ps' W2 So2 H). cbn [j_txs]. apply Forall_app. split; [exact Fj|].
+        constructor; [|constructor]. exact (parse_transaction_prng ts fuel ps1 tx ps2 W1 So Et).
+      - exact (IH ps2 j1 j' ps' W2 So2 H Fj). }
+    destruct (is_ty (ctype ps1) TDirective).
+    { destruct (parse_directive fuel ps1) as [[od ps2]|] eqn:Ed; [|discriminate].
+      destruct (parse_directive_inv fuel ps1 od ps2 W1 Ed) as [W2 S2].
+      assert (So2 : suffix (toks ps2) ts) by (eapply suffix_trans; [exact S2|exact So]).
+      destruct od as [d|]; [destruct d|]; (eapply (IH ps2); [exact W2|exact So2|exact H|exact Fj]). }
+    eapply (STEP (skip_to_next_line (perr ps1)) j1); [le_tac|sfx_tac|reflexivity|exact H]. }
+  pose proof (G _ _ _ _ _ W (suffix_refl ts) Ej (Forall_nil _)) as Q. rewrite Forall_forall in Q.
+  intros tx I. destruct (Q tx I) as [E|(t & It & E)]; [left; exact E|right; exists t; split; [exact (TK t It)|exact E]].
+Qed.
